@@ -238,6 +238,9 @@ var RuntimePkgs = []string{
 	"github.com/99designs/gqlgen/graphql/handler/extension",
 	"github.com/99designs/gqlgen/graphql/handler/lru",
 	"golang.org/x/sync/semaphore",
+	// (not used by the pinned tree; a change that starts using it must not put unmanaged
+	// goroutines under the scheduler)
+	"golang.org/x/sync/errgroup",
 }
 
 // BuildInstrumented instruments pkgs (loaded from the scratch module at dir), then builds
